@@ -174,6 +174,7 @@ func rewrite(path string, src []byte) ([]byte, []string, bool, error) {
 		}
 	}
 	needVtime, needVchan := false, false
+	_ = needVchan
 	timeName := names["time"]
 	// time.X -> vtime.X
 	if timeName != "" && timeName != "_" && timeName != "." {
@@ -195,6 +196,89 @@ func rewrite(path string, src []byte) ([]byte, []string, bool, error) {
 			return true
 		})
 	}
+	// go statements and statement-level channel operations (outside select)
+	needVgo := false
+	bareCounter := 0
+	handled := map[ast.Node]bool{} // statements already wrapped (the walk descends into the replacement)
+	isRecv := func(e ast.Expr) (ast.Expr, bool) {
+		if u, ok := e.(*ast.UnaryExpr); ok && u.Op == token.ARROW {
+			return u.X, true
+		}
+		return nil, false
+	}
+	waitCall := func(dir string, ch ast.Expr) ast.Stmt {
+		return &ast.ExprStmt{X: &ast.CallExpr{Fun: &ast.SelectorExpr{X: ast.NewIdent("vchan__"), Sel: ast.NewIdent("Wait")},
+			Args: []ast.Expr{&ast.CallExpr{Fun: &ast.SelectorExpr{X: ast.NewIdent("vchan__"), Sel: ast.NewIdent(dir)}, Args: []ast.Expr{ch}}}}}
+	}
+	rewriteBlocks(f, func(list []ast.Stmt) []ast.Stmt {
+		for i := 0; i < len(list); i++ {
+			s := list[i]
+			var lbl *ast.LabeledStmt
+			inner := s
+			if l, ok := s.(*ast.LabeledStmt); ok {
+				lbl = l
+				inner = l.Stmt
+			}
+			var repl ast.Stmt
+			if handled[inner] {
+				continue
+			}
+			handled[inner] = true
+			switch x := inner.(type) {
+			case *ast.GoStmt:
+				// go f(a, b)  =>  { v0 := a; v1 := b; vgo__.Go(func() { f(v0, v1) }) }   (arguments are evaluated by the go statement)
+				var pre []ast.Stmt
+				call := *x.Call
+				call.Args = append([]ast.Expr(nil), x.Call.Args...)
+				for ai, a := range call.Args {
+					if _, isLit := a.(*ast.BasicLit); isLit {
+						continue
+					}
+					if ai == len(call.Args)-1 && call.Ellipsis.IsValid() {
+						// keep "xs..." as it is, evaluated once
+					}
+					tmp := fmt.Sprintf("vgo__%d_%d", bareCounter, ai)
+					pre = append(pre, &ast.AssignStmt{Lhs: []ast.Expr{ast.NewIdent(tmp)}, Tok: token.DEFINE, Rhs: []ast.Expr{a}})
+					call.Args[ai] = ast.NewIdent(tmp)
+				}
+				bareCounter++
+				fn := &ast.FuncLit{Type: &ast.FuncType{Params: &ast.FieldList{}}, Body: &ast.BlockStmt{List: []ast.Stmt{&ast.ExprStmt{X: &call}}}}
+				goCall := &ast.ExprStmt{X: &ast.CallExpr{Fun: &ast.SelectorExpr{X: ast.NewIdent("vgo__"), Sel: ast.NewIdent("Go")}, Args: []ast.Expr{fn}}}
+				repl = &ast.BlockStmt{List: append(pre, goCall)}
+				needVgo = true
+			case *ast.SendStmt:
+				repl = &ast.BlockStmt{List: []ast.Stmt{waitCall("Send", x.Chan), x}}
+				needVchan = true
+			case *ast.ExprStmt:
+				if ch, ok := isRecv(x.X); ok {
+					repl = &ast.BlockStmt{List: []ast.Stmt{waitCall("Recv", ch), x}}
+					needVchan = true
+				}
+			case *ast.AssignStmt:
+				if len(x.Rhs) == 1 {
+					if ch, ok := isRecv(x.Rhs[0]); ok {
+						// the wait goes in front, the assignment itself must stay in this scope
+						if lbl != nil {
+							lbl.Stmt = waitCall("Recv", ch)
+							list = append(list[:i+1], append([]ast.Stmt{x}, list[i+1:]...)...)
+						} else {
+							list = append(list[:i], append([]ast.Stmt{waitCall("Recv", ch)}, list[i:]...)...)
+						}
+						needVchan = true
+						i++ // skip the statement that was shifted by the insertion
+					}
+				}
+			}
+			if repl != nil {
+				if lbl != nil {
+					lbl.Stmt = repl
+				} else {
+					list[i] = repl
+				}
+			}
+		}
+		return list
+	})
 	// select statements
 	var rerr error
 	selCounter := 0
@@ -229,17 +313,7 @@ func rewrite(path string, src []byte) ([]byte, []string, bool, error) {
 	if rerr != nil {
 		return nil, nil, false, rerr
 	}
-	// go statements and bare channel ops are reported (not rewritten)
-	ast.Inspect(f, func(n ast.Node) bool {
-		switch x := n.(type) {
-		case *ast.GoStmt:
-			notes = append(notes, fmt.Sprintf("%s: go statement (uncontrolled goroutine)", fset.Position(x.Pos())))
-		case *ast.SendStmt:
-			notes = append(notes, fmt.Sprintf("%s: bare channel send", fset.Position(x.Pos())))
-		}
-		return true
-	})
-	if needVtime || needVchan {
+	if needVtime || needVchan || needVgo {
 		changed = true
 		add := func(name, path string) {
 			spec := &ast.ImportSpec{Name: ast.NewIdent(name), Path: &ast.BasicLit{Kind: token.STRING, Value: strconv.Quote(path)}}
@@ -258,6 +332,9 @@ func rewrite(path string, src []byte) ([]byte, []string, bool, error) {
 		}
 		if needVchan {
 			add("vchan__", "verif/shim/vchan")
+		}
+		if needVgo {
+			add("vgo__", "verif/shim/vgo")
 		}
 	}
 	if !changed {
